@@ -11,6 +11,8 @@
         → ok <states>  |  reject            is there an interleaving of the goroutines' CAS/add steps
                                             in which every goroutine gets exactly its ids, in its order?
     deadline <cfgTimeout> <ctxDeadline|-> <callTimeout|-> <now>   → <effective deadline>
+    deadline <cfgTimeout> <ctxDeadline|-> <callTimeout|-> <now> <direct|single|middleware|prepost>
+        → <deadline of the context doInvoke waits on when dispatched this way> | none
     budget <dial> <write> <start> <deadline> <lockAt> <blocked>   → <budget> <propertyBound>
     admits  <nAdp> <objQueueMax> <queueCap> <writeTimeout> <ctr0> <budget> <event> …
         → ok <maxStates> <finalStates> | reject <index> <event> <statesBefore> | budget <index> | bad-op
@@ -363,6 +365,16 @@ def handle (ws : List String) : String :=
       | some n => s!"ok {n}"
       | none => "reject")
     | _, _ => "bad-op"
+  | ["deadline", t, ctx, per, now, path] =>
+    let pth : Option Tars.Call.Path := match path with
+      | "direct" => some .direct | "single" => some .single
+      | "middleware" => some .middleware | "prepost" => some .prePost | _ => none
+    match parseNat? t, parseOptNat ctx, parseOptNat per, parseNat? now, pth with
+    | some t, some ctx, some per, some now, some pth =>
+      (match Tars.Call.handedDeadline ⟨1, 0, 1, 0, 0, t⟩ now ⟨false, 0, ctx, per⟩ pth with
+      | some d => toString d
+      | none => "none")
+    | _, _, _, _, _ => "bad-op"
   | ["deadline", t, ctx, per, now] =>
     match parseNat? t, parseOptNat ctx, parseOptNat per, parseNat? now with
     | some t, some ctx, some per, some now =>
